@@ -136,6 +136,18 @@ def container(kind, ids):
     raise ValueError(kind)
 
 
+def own_view(t, axis, sel):
+    """A slice of the table's own ID array (ids()[a:b:c] is what callers
+    write), and the IDs it names."""
+    arr = t.ids(axis=axis)
+    n = len(arr)
+    a = sel["order"][0] % n
+    b = a + 1 + sel["order"][1] % (n - a)
+    c = 1 + sel["order"][2] % 2
+    view = arr[a:b:c]
+    return view, [str(i) for i in view]
+
+
 class _Quiet:
     def cls(self, *a, **k):
         pass
@@ -193,6 +205,9 @@ def _check(case, rec, t):
         if sel["dups"]:
             chosen = chosen + chosen[:1]
         arg = container(sel["container"], chosen)
+        if sel["container"] == "ndarray" and sel["dups"] and ids:
+            arg, chosen = own_view(t, axis, sel)
+            rec.cls("container:view-of-own-ids")
         rec.cls("container:" + sel["container"])
         r = t.filter(arg, axis, invert, inplace) if case.get("positional") \
             else t.filter(arg, axis=axis, invert=invert, inplace=inplace)
